@@ -852,6 +852,32 @@ class Discharger:
                                 pops = [bi for bi in doms.get(src[4], ()) if mir.blocks[bi]["term"]["k"] == "call" and facts.strip_generics(mir.blocks[bi]["term"]["callee"].get("path", "")).split("::")[-1] in ("pop", "pop_at", "remove", "swap_remove")]
                                 if pops:
                                     return "R12.5: one entry was removed from the full queue on every path here, so one slot is free"
+                # try_push(..).unwrap() after an up-front `is_full()` test (R12.5, path form): on the edge where the queue is full
+                # every path to the push removes an entry first, on the other edge the queue is not full; nothing is pushed in
+                # between on either
+                if src[0] == "call" and src[1].split("::")[-1] == "try_push" and "arrayvec::ArrayVec" in (src[1] + " " + str(src[2])) and src[3]:
+                    recv = sym.norm(src[3][0])
+                    doms = cfg.dominators(mir)
+                    removers = [bi for bi in mir.live_blocks() if mir.blocks[bi]["term"]["k"] == "call" and facts.strip_generics(mir.blocks[bi]["term"]["callee"].get("path", "")).split("::")[-1] in ("pop", "pop_at", "remove", "swap_remove", "swap_pop", "truncate", "clear")
+                                and "arrayvec" in mir.blocks[bi]["term"]["callee"].get("path", "") and mir.blocks[bi]["term"]["args"] and sym.norm(S.operand(mir.blocks[bi]["term"]["args"][0])) == recv]
+                    pushers = [bi for bi in mir.live_blocks() if bi != src[4] and mir.blocks[bi]["term"]["k"] == "call" and facts.strip_generics(mir.blocks[bi]["term"]["callee"].get("path", "")).split("::")[-1] in ("push", "try_push", "insert", "try_insert", "push_unchecked", "extend", "try_extend_from_slice")
+                               and "arrayvec" in mir.blocks[bi]["term"]["callee"].get("path", "")]
+                    for bi in doms.get(src[4], ()):
+                        tt = mir.blocks[bi]["term"]
+                        if tt["k"] != "switch" or bi == src[4]:
+                            continue
+                        de = sym.norm(S.operand(tt["discr"]))
+                        if not (de[0] == "call" and de[1].split("::")[-1] == "is_full" and "arrayvec" in de[1] and de[3] and sym.norm(de[3][0]) == recv):
+                            continue
+                        false_edges = [bb for v_, bb in tt["targets"] if int(v_) == 0]
+                        true_edge = tt["otherwise"] if false_edges else None
+                        if true_edge is None or len(false_edges) != 1:
+                            continue
+                        between = cfg.reachable(mir, [true_edge, false_edges[0]], avoid={src[4]})
+                        if any(p_ in between for p_ in pushers):
+                            continue
+                        if removers and cfg.must_pass_through(mir, true_edge, removers, {src[4]}):
+                            return "R12.5: is_full() was tested first - where it held every path here removes an entry before the push, where it did not the queue has a free slot"
                 # #0 block: last byte after consuming len-1 bytes of a non-empty rest
                 if src[0] == "call" and s.body.npath.endswith("read_arbitrary_data"):
                     for c, v, _ in conds:
